@@ -10,7 +10,8 @@ def runeError : Nat := 0xFFFD
 
 def isCont (b : UInt8) : Bool := 0x80 ≤ b.toNat && b.toNat ≤ 0xBF
 
-/-- `utf8.DecodeRune`: (rune, size). Empty input gives (RuneError, 0). -/
+/-- `utf8.DecodeRune`: (rune, size). Empty input gives (RuneError, 0). Bit operations are written as the
+equivalent arithmetic (`x &&& 0x3F` = `x % 64`, `x <<< 6` = `x * 64`) so that linear arithmetic can reason about them. -/
 def decodeRune : Bytes → Nat × Nat
   | [] => (runeError, 0)
   | p0 :: rest =>
@@ -19,7 +20,7 @@ def decodeRune : Bytes → Nat × Nat
     else if b0 < 0xC2 then (runeError, 1)
     else if b0 < 0xE0 then
       match rest with
-      | b1 :: _ => if isCont b1 then ((b0 &&& 0x1F) <<< 6 ||| (b1.toNat &&& 0x3F), 2) else (runeError, 1)
+      | b1 :: _ => if isCont b1 then ((b0 % 32) * 64 + b1.toNat % 64, 2) else (runeError, 1)
       | _ => (runeError, 1)
     else if b0 < 0xF0 then
       match rest with
@@ -27,7 +28,7 @@ def decodeRune : Bytes → Nat × Nat
         let lo := if b0 == 0xE0 then 0xA0 else 0x80
         let hi := if b0 == 0xED then 0x9F else 0xBF
         if lo ≤ b1.toNat && b1.toNat ≤ hi && isCont b2 then
-          ((b0 &&& 0x0F) <<< 12 ||| (b1.toNat &&& 0x3F) <<< 6 ||| (b2.toNat &&& 0x3F), 3)
+          ((b0 % 16) * 4096 + (b1.toNat % 64) * 64 + b2.toNat % 64, 3)
         else (runeError, 1)
       | _ => (runeError, 1)
     else if b0 < 0xF5 then
@@ -36,7 +37,7 @@ def decodeRune : Bytes → Nat × Nat
         let lo := if b0 == 0xF0 then 0x90 else 0x80
         let hi := if b0 == 0xF4 then 0x8F else 0xBF
         if lo ≤ b1.toNat && b1.toNat ≤ hi && isCont b2 && isCont b3 then
-          ((b0 &&& 0x07) <<< 18 ||| (b1.toNat &&& 0x3F) <<< 12 ||| (b2.toNat &&& 0x3F) <<< 6 ||| (b3.toNat &&& 0x3F), 4)
+          ((b0 % 8) * 262144 + (b1.toNat % 64) * 4096 + (b2.toNat % 64) * 64 + b3.toNat % 64, 4)
         else (runeError, 1)
       | _ => (runeError, 1)
     else (runeError, 1)
@@ -46,17 +47,17 @@ def isSurrogate (r : Nat) : Bool := 0xD800 ≤ r && r < 0xE000
 /-- `utf8.EncodeRune` -/
 def encodeRune (r : Nat) : Bytes :=
   if r < 0x80 then [UInt8.ofNat r]
-  else if r < 0x800 then [UInt8.ofNat (0xC0 ||| (r >>> 6)), UInt8.ofNat (0x80 ||| (r &&& 0x3F))]
+  else if r < 0x800 then [UInt8.ofNat (192 + r / 64), UInt8.ofNat (128 + r % 64)]
   else if isSurrogate r || r > 0x10FFFF then [0xEF, 0xBF, 0xBD]
   else if r < 0x10000 then
-    [UInt8.ofNat (0xE0 ||| (r >>> 12)), UInt8.ofNat (0x80 ||| ((r >>> 6) &&& 0x3F)), UInt8.ofNat (0x80 ||| (r &&& 0x3F))]
+    [UInt8.ofNat (224 + r / 4096), UInt8.ofNat (128 + (r / 64) % 64), UInt8.ofNat (128 + r % 64)]
   else
-    [UInt8.ofNat (0xF0 ||| (r >>> 18)), UInt8.ofNat (0x80 ||| ((r >>> 12) &&& 0x3F)),
-     UInt8.ofNat (0x80 ||| ((r >>> 6) &&& 0x3F)), UInt8.ofNat (0x80 ||| (r &&& 0x3F))]
+    [UInt8.ofNat (240 + r / 262144), UInt8.ofNat (128 + (r / 4096) % 64),
+     UInt8.ofNat (128 + (r / 64) % 64), UInt8.ofNat (128 + r % 64)]
 
 /-- `utf16.DecodeRune r1 r2` (U+FFFD when not a valid pair) -/
 def utf16Decode (r1 r2 : Nat) : Nat :=
-  if 0xD800 ≤ r1 && r1 < 0xDC00 && 0xDC00 ≤ r2 && r2 < 0xE000 then ((r1 - 0xD800) <<< 10 ||| (r2 - 0xDC00)) + 0x10000
+  if 0xD800 ≤ r1 && r1 < 0xDC00 && 0xDC00 ≤ r2 && r2 < 0xE000 then ((r1 - 0xD800) * 1024 + (r2 - 0xDC00)) + 0x10000
   else runeError
 
 /-- Coercion of arbitrary bytes to well-formed UTF-8, what `string → []rune → string` does in Go:
